@@ -817,6 +817,56 @@ def prepared_list(fl, next_bb):
     return out
 
 
+def batched_renames(fl):
+    """[(rename bb, next bb, type of the collection walked)]: a `rename` inside a loop that walks a collection this body
+    filled beforehand (deliveries are staged into a container and published together).  The ORDER of publication is then the
+    order the container iterates in."""
+    b = fl.body
+    loops = fl.cfg.loops()
+    out = []
+    for rb, rt in fl.calls(lambda c: c.endswith('fs::rename')):
+        for nb, nt in fl.calls_to('std::iter::Iterator::next'):
+            if not any(rb in bl and nb in bl for bl in loops.values()):
+                continue
+            # walk back through the adaptors to the collection local
+            cur, ty, hops = nt['args'][0], None, 0
+            seen_ = set()
+            work = [cur]
+            while work and hops < 12:
+                hops += 1
+                op = work.pop()
+                if op['k'] == 'const':
+                    continue
+                for o in fl.origins(op):
+                    k_ = (o.kind, str(o.key), o.bb)
+                    if k_ in seen_:
+                        continue
+                    seen_.add(k_)
+                    last = str(o.key).split('::')[-1]
+                    if o.kind == 'call' and o.bb is not None and (last in WHOLE_ITER or last in ('values', 'into_values', 'values_mut', 'drain')):
+                        a0 = b.blocks[o.bb]['term']['args'][0]
+                        if a0['k'] != 'const':
+                            t0 = b.local_ty(a0['p']['l']).replace('&', '').replace('mut ', '').strip()
+                            if re.match(r'^(std|alloc)::(collections|vec)::', t0):
+                                ty = t0
+                            work.append(a0)
+                    elif o.kind in ('call', 'agg') and o.bb is not None and last in ('new', 'with_capacity', 'default'):
+                        pass
+            if ty is None:
+                for o in iterated_collection(fl, nb):
+                    if o.kind in ('param', 'upvar'):
+                        ty = None
+                        break
+                if prepared_list(fl, nb):
+                    ty = 'std::vec::Vec'
+            if ty is not None:
+                # filled in this body?
+                filled = fl.calls(lambda c: c.split('::')[-1] in ('push', 'push_back', 'insert', 'extend') and any(x in c for x in ('Vec', 'BTreeMap', 'BTreeSet', 'HashMap', 'HashSet', 'VecDeque')))
+                if filled:
+                    out.append((rb, nb, ty))
+    return out
+
+
 def order_edges(fl, is_a, is_b, strict=False):
     """CFG edges on which a <= b (strict: a < b) is known, for operands recognised by the predicates is_a / is_b on
     *operands* (op dicts), whatever comparison operator and operand order the code uses:
